@@ -565,7 +565,10 @@ class Model(Object):
             # remove reference to the metabolite in all groups
             associated_groups = self.get_associated_groups(x)
             for group in associated_groups:
-                group.remove_members(x)
+                group.remove_members([x])
+                context = get_context(self)
+                if context:
+                    context(partial(group.add_members, [x]))
 
             if not destructive:
                 for the_reaction in list(x._reaction):  # noqa W0212
@@ -845,7 +848,9 @@ class Model(Object):
                 # remove reference to the reaction in all groups
                 associated_groups = self.get_associated_groups(reaction)
                 for group in associated_groups:
-                    group.remove_members(reaction)
+                    group.remove_members([reaction])
+                    if context:
+                        context(partial(group.add_members, [reaction]))
 
     def add_groups(self, group_list: Union[str, Group, List[Group]]) -> None:
         """Add groups to the model.
